@@ -509,8 +509,18 @@ pub(crate) fn load_defs(ctx: &mut Context, defs: Defs) -> Vec<String> {
                         unique.insert(&*prop.name);
                         unique.insert(&*prop.input_name);
                         unique.insert(&*prop.output_name);
-                        let unit = (&input / &output).expect("Non-zero property").unit;
-                        let existing = prev.entry(unit).or_insert_with(BTreeSet::new);
+                        let ratio = match &input / &output {
+                            Some(ratio) => ratio,
+                            None => {
+                                return Err(format!(
+                                    "Property {} has an output of zero",
+                                    prop.name
+                                ))
+                            }
+                        };
+                        let existing = prev
+                            .entry(ratio.unit.clone())
+                            .or_insert_with(BTreeSet::new);
                         for conflict in existing.intersection(&unique) {
                             errors.push(format!(
                                 "Warning: conflicting \
@@ -519,10 +529,7 @@ pub(crate) fn load_defs(ctx: &mut Context, defs: Defs) -> Vec<String> {
                             ));
                         }
                         existing.append(&mut unique);
-                        ctx.temporaries.insert(
-                            prop.name.clone(),
-                            (&input / &output).expect("Non-zero property"),
-                        );
+                        ctx.temporaries.insert(prop.name.clone(), ratio);
                         if output == Number::one() {
                             ctx.temporaries
                                 .insert(prop.input_name.clone(), input.clone());
